@@ -43,6 +43,17 @@ META = {
     "C08": dict(level="proof", assumptions=["schedule view: step functions uninterpreted, accumulator = exponent vector over formal line values (equal vectors <=> same multiset of line evaluations with the same powers)",
                                             "list lengths are enumerated up to 2 plain + 2 prepared pairs (quick) / 3 + 3 (thorough) with every identity pattern: BOUNDED in the list length (reported as bounded obligations); the single-pair and prepare obligations are unbounded (constant trip count executed exactly)",
                                             "final_exponentiation is a homomorphism (exponent view, C01)"]),
+    "C19": dict(level="proof", assumptions=[
+        "binding: every library function is an opaque recorder; the obligation is about WHICH function is called with WHICH parameters in WHICH order and what is returned -- what the callee does is the other properties",
+        "the binding table is written from the C header names (gt_add -> Fq12::multiply, gt_negate -> inverse, gt_double -> square_cyclotomic, *_marshal -> encode / marshal<compressed>, ...); plain scheme wrappers must forward their parameters in declaration order to the function of the same name",
+        "layout: sizes, alignments and member offsets are the C and C++ front ends' own constant evaluation (clang 14) on probes generated from the AST; the (C struct, C++ type) pairs are collected from the casts in the wrapper bodies; 32-bit-word configuration obtained with -U__SIZEOF_INT128__ on the host target (a true 32-bit target is not available offline)",
+        "Go bindings (lang/go) are not covered"]),
+    "C20": dict(level="other", explanation=("Frames: every function under contract in the BV back end has a proved assigns clause (its output objects and nothing else) -- the field-layer units are re-run here. Whole-library facts: "
+                                            "no function-local statics in any configuration's AST, no function writes to or exposes a namespace-scope object, the rebuilt objects import only memory primitives and compiler helpers and have no "
+                                            "writable symbol outside the never-written namespace-scope objects. Data-race freedom on distinct outputs follows from disjoint frames (paper lemma); no schedule is explored."),
+                assumptions=["thread interleavings are not enumerated (no thread model in CBMC worth using here): re-entrancy is argued from frames + absence of hidden state",
+                             "the x86-64 build configuration of this host is the one whose objects are rebuilt; AArch64 / ARMv6-M objects are not built offline (their sources contain no data sections: not checked mechanically)",
+                             "the dispatch pointers are written only by their static initialisers (AST: no assignment anywhere)"]),
     "C07": dict(level="proof", assumptions=GROUP_ASSUME + [
         "GT in the exponent view: multiply / square_cyclotomic / conjugate / inverse act as +, *2, -, - on discrete logs (C04 for the field operations; Granger-Scott squaring and conj = inverse on the cyclotomic subgroup are trusted)",
         "frobenius_map(.,k) on GT is exponentiation by q^k, and q = x (mod r) (closed fact by construction of q from x)",
